@@ -61,6 +61,9 @@ pub struct BodyPlan {
     pub prelude: Option<usize>,
     /// `via_text_reader` only: read through `text_reader_with(this charset)` instead of `text_reader()`
     pub text_charset: Option<&'static encoding_rs::Encoding>,
+    /// the charset above is the library's own fallback (no charset declared, none configured): read through
+    /// plain `text_reader()`
+    pub text_charset_implicit: bool,
     /// which `std::io::Read` entry point the size schedule goes through: 0 = `read`, 1 = `read_vectored`
     /// (two slices), 2 = `take(n).read_to_end()` (waits for n bytes: not for the "never waits" checks),
     /// 3 = two reads of the schedule, then `read_to_end` / `read_to_string` for the rest
@@ -266,6 +269,7 @@ pub fn gen_plan(g: &mut G, max_payload: usize) -> BodyPlan {
         // derived, not drawn
         prelude: if (len + nsegs) % 7 == 3 { Some((len / 3).min(5000)) } else { None },
         text_charset: None,
+        text_charset_implicit: false,
         // derived, not drawn: recorded tapes of earlier findings keep their meaning
         read_api: match (len * 7 + nsegs) % 6 {
             0 => 1,
@@ -318,6 +322,7 @@ pub fn plan_from_payload(g: &mut G, payload: Vec<u8>, mut headers: Vec<(String, 
         extra_headers: headers,
         prelude: None,
         text_charset: None,
+        text_charset_implicit: false,
         read_api: 0,
         damage: String::new(),
         cut_at: None,
@@ -625,7 +630,7 @@ pub fn caller_with(plan: &BodyPlan, stop_on_block: bool, tweak: impl FnOnce(atto
     let mut resp = if (plan.payload.len() + plan.wire.head_len) % 4 == 1 { Body::Split(resp.split().2) } else { Body::Whole(resp) };
     match &plan.read_mode {
         ReadMode::Sizes(sizes, _) => {
-            let mut resp: Box<dyn Read> = if plan.via_text_reader { resp.text_reader(plan.text_charset) } else { resp.reader() };
+            let mut resp: Box<dyn Read> = if plan.via_text_reader { resp.text_reader(if plan.text_charset_implicit { None } else { plan.text_charset }) } else { resp.reader() };
             let mut i = 0usize;
             let mut after_end = 0usize;
             let mut ended = false;
